@@ -171,6 +171,9 @@ func TestC10_Rapid(t *testing.T) {
 		c := genClientCase(rt, 3, 60)
 		e, err := safeRun(c)
 		rec.Case("random", histSig(c), e != nil && e.st.nonFirstResponse, func() any { return c })
+		if e != nil {
+			rec.Count("due_but_not_acted_on", int64(e.st.lazy))
+		}
 
 		return c, err
 	})
